@@ -17,7 +17,7 @@ var (
 // RWMutex for concurrancy.
 func getLocation(offset int32, buf []byte) *time.Location {
 	mutexTimeZones.RLock()
-	if z, ok := cacheTimeZone[offset]; ok {
+	if z, ok := cacheTimeZone[offset]; ok && z.String() == string(buf) {
 		mutexTimeZones.RUnlock()
 		return z
 	}
